@@ -182,6 +182,9 @@ class GetDuplicateHashes:
     def value(db):
         return db_dup_hashes(db)
 
+    def ensures_empty_store_has_no_duplicates(db, result):
+        return implies(db_empty(db), len(result) == 0)
+
 
 @contract(QS + "find_blocks_by_hash", props=["C03"], types=dict(self=QueryServiceT, db=ConnT, hash_value=Int),
           returns=SeqOf(RowT),
@@ -196,12 +199,35 @@ class FindBlocksByHash:
         return all(r[4] == hash_value for r in result)
 
 
-@contract(DCACHE + "add_blocks", props=["C03"], types=dict(self=CacheT, file_path=PathT, blocks=Blocks),
+def _db_empty_native(db):
+    return db.execute("SELECT COUNT(*) FROM code_blocks").fetchone()[0] == 0
+
+
+# the database is a state token: db_insert(db, path, blocks) is the store after inserting the blocks of one file;
+# db_empty(db): no code_blocks row (what a freshly created DRYCache holds)
+db_insert = uf("dry_db_insert", [ConnT, PathT, Blocks], ConnT)
+db_empty = uf("dry_db_empty", [ConnT], Bool, concrete=_db_empty_native)
+
+
+@contract(DCACHE + "add_blocks", props=["C03"], types=dict(self=CacheT, file_path=PathT, blocks=Blocks), modifies=["self.db"],
           assumed="SQLite INSERT of one row (str(file_path), hash_value, start_line, end_line, snippet) per block plus the "
-                  "files row; effect on the opaque connection is not modelled (INSERT text fingerprinted)")
+                  "files row (INSERT text fingerprinted); the store afterwards is the state token db_insert(before, path, "
+                  "blocks), an empty block list changes nothing")
 class CacheAddBlocks:
-    def ensures(blocks):
-        return True
+    def ensures_inserts_exactly_these_blocks(self, file_path, blocks, old):
+        return self.db == (db_insert(old.self.db, file_path, blocks) if len(blocks) > 0 else old.self.db)
+
+
+@contract(DCACHE + "__init__", props=["C03"], types=dict(self=CacheT, storage_mode=Str),
+          modifies=["self.db", "self._query_service"], raises=["ValueError"],
+          assumed="opens a NEW sqlite database (':memory:' or a fresh temporary file) and creates the empty schema "
+                  "(CREATE TABLE IF NOT EXISTS ..., text fingerprinted): a freshly constructed cache holds no code block")
+class CacheInit:
+    def raises_when(storage_mode):
+        return storage_mode not in ("memory", "tempfile")
+
+    def ensures_new_database_is_empty(self):
+        return db_empty(self.db)
 
 
 def rows_to_blocks(rows):
@@ -239,10 +265,11 @@ class StorageGetBlocksForHash:
         return rows_to_blocks(db_rows(self._cache.db, hash_value))
 
 
-@contract(DST + "add_blocks", props=["C03"], types=dict(self=StorageT, file_path=PathT, blocks=Blocks))
+@contract(DST + "add_blocks", props=["C03"], types=dict(self=StorageT, file_path=PathT, blocks=Blocks),
+          modifies=["self._cache.db"])
 class StorageAddBlocks:
-    def ensures(blocks):
-        return True
+    def ensures_stores_exactly_these_blocks(self, file_path, blocks, old):
+        return self._cache.db == (db_insert(old.self._cache.db, file_path, blocks) if len(blocks) > 0 else old.self._cache.db)
 
 
 # =================================================================== grouping by hash and reporting (violation_generator.py)
@@ -638,16 +665,16 @@ class GenerateViolations:
 
 
 # =================================================================== SQL text fingerprint (the storage contracts are ASSUMED)
-SQL_FINGERPRINT = "449f5da0765482171821e4a8eeec4eb7c1b4747df423c0777a6d04ec7a228d52"
+SQL_FINGERPRINT = "b623a9845dbc7a461f144a292faab879c89770216837077eee5a4aa218ddb5a0"
 
 
 def _dry_sql_statements(repo):
     """Whitespace-normalised SQL texts: every statement of cache_query.py and every statement of cache.py that touches
-    the code_blocks table (schema, index, INSERT)."""
+    the code_blocks table or the files table it references (schema, index, INSERT, any DELETE)."""
     import ast as _ast
     import os as _os
     out = []
-    for rel, keep in (("src/linters/dry/cache_query.py", lambda s: True), ("src/linters/dry/cache.py", lambda s: "code_blocks" in s)):
+    for rel, keep in (("src/linters/dry/cache_query.py", lambda s: True), ("src/linters/dry/cache.py", lambda s: "code_blocks" in s or " files" in s)):
         tree = _ast.parse(open(_os.path.join(repo, rel)).read())
         found = []
         for n in _ast.walk(tree):
@@ -692,6 +719,27 @@ def _storage_roundtrip(repo, seed, cases):
                     return f"case {case}: find_duplicates_by_hash({h}) returned {got}, inserted {want}"
         finally:
             cache.close()
+    # "every run starts from an empty store": one long-lived StorageInitializer (as a reused rule object has) hands out
+    # a store per run; whatever earlier runs inserted, a newly handed-out store holds nothing
+    from src.linters.dry.config import DRYConfig
+    from src.linters.dry.storage_initializer import StorageInitializer
+    for mode in ("memory", "tempfile"):
+        initializer = StorageInitializer()
+        config = DRYConfig(enabled=True, storage_mode=mode)
+        seen = set()
+        for run in range(3):
+            storage = initializer.initialize(None, config)
+            stale = list(storage.duplicate_hashes) + [b for h in sorted(seen) for b in storage.get_blocks_for_hash(h)]
+            if stale:
+                return (f"StorageInitializer.initialize ({mode}), run {run + 1} on one initializer: the store handed out is not "
+                        f"empty, it still holds {stale[:4]} from an earlier run")
+            path = _Path(f"run{run}/f.py")
+            blocks = [CodeBlock(file_path=path, start_line=s, end_line=s + 2, snippet="s", hash_value=rng.randrange(0, 3))
+                      for s in (1, 11, 21, 31)]
+            storage.add_blocks(path, blocks)
+            seen.update(b.hash_value for b in blocks)
+            if not list(storage.duplicate_hashes):
+                return f"StorageInitializer.initialize ({mode}): four blocks with three hash values stored, no duplicate hash found"
     return None
 
 
@@ -1016,3 +1064,178 @@ class FileAnalyzerAnalyze:
                    and not ts_single_statement(content, start_line, end_line)]
                   if not block_filtered(block_of(file_path, w), content)]
                  if language in ("typescript", "javascript") else []))
+
+
+# =================================================================== every run starts from an empty store
+SI = "src/linters/dry/storage_initializer.py::StorageInitializer."
+DRYL = "src/linters/dry/linter.py::DRYRule."
+from contracts.c15_language import CtxT as LintCtxT  # noqa: E402
+
+# natively a REAL, valid DRYConfig (the record type of contracts/c05_config.py lists only the fields its clauses read;
+# assumed callees such as FileAnalyzer.__init__ read others, e.g. `filters`)
+DryConfigGenT = DRYConfigT.with_gen(lambda g: _real("src.linters.dry.config", "DRYConfig")(
+    enabled=True, min_duplicate_lines=g.rng.randrange(1, 6), min_occurrences=g.rng.randrange(1, 5),
+    storage_mode=g.rng.choice(["memory", "tempfile"])))
+StorageInitializerT = Rec("StorageInitializer", cls="src/linters/dry/storage_initializer.py::StorageInitializer",
+                          pycls="src.linters.dry.storage_initializer:StorageInitializer", closed=True)
+
+
+@contract(SI + "initialize", props=["C03", "C08"], types=dict(self=StorageInitializerT, context=LintCtxT, config=DryConfigGenT),
+          returns=StorageT, inline=["src/linters/dry/duplicate_storage.py::DuplicateStorage.__init__"])
+class StorageInitialize:
+    """Property ('projects that share no run produce no DRY violation'; nothing stored by an earlier run may be seen):
+    every call hands out a store that holds no code block, and the initializer itself keeps nothing."""
+    def requires(config):
+        return config.storage_mode in ("memory", "tempfile")  # DRYConfig.__post_init__
+
+    def ensures_every_run_starts_from_an_empty_store(result):
+        return db_empty(result._cache.db)
+
+
+@contract(FAN + "__init__", props=["C03"], types=dict(self=FileAnalyzerT, config=Opt(DRYConfigT)),
+          modifies=["self._python_analyzer", "self._typescript_analyzer"],
+          assumed="builds the block-filter registry from config.filters (dict iteration over an unmodelled field) and the two "
+                  "language analyzers; the Python analyzer starts without a statement detector")
+class FileAnalyzerInit:
+    def ensures_no_detector_yet(self):
+        return self._python_analyzer._statement_detector is None
+
+
+# the rule's storage-related fields (contracts/c08_state.py has its own, coarser view of the same class for C08)
+DRYRuleT = Rec("DRYRule", cls="src/linters/dry/linter.py::DRYRule", _storage=Opt(StorageT), _initialized=Bool,
+               _file_analyzer=Opt(FileAnalyzerT),
+               _helpers=Rec("DRYComponents", cls="src/linters/dry/linter.py::DRYComponents", storage_initializer=StorageInitializerT))
+
+
+@contract(DRYL + "_ensure_storage_initialized", props=["C03", "C08"],
+          types=dict(self=DRYRuleT, context=LintCtxT, config=DryConfigGenT),
+          modifies=["self._storage", "self._file_analyzer", "self._initialized"])
+class EnsureStorageInitialized:
+    def requires(config):
+        return config.storage_mode in ("memory", "tempfile")
+
+    def ensures_first_file_of_a_run_gets_an_empty_store(self, old):
+        return implies(not old.self._initialized,
+                       self._initialized and self._storage is not None and db_empty(self._storage._cache.db)
+                       and self._file_analyzer is not None)
+
+    def ensures_later_files_keep_the_store(self, old):
+        # (stated on the store's database token, not on object equality: the objects define no __eq__)
+        return (not old.self._initialized) or (
+            self._initialized and (self._storage is None) == (old.self._storage is None)
+            and (self._storage is None or self._storage._cache.db == old.self._storage._cache.db)
+            and (self._file_analyzer is None) == (old.self._file_analyzer is None))
+
+
+@contract(DRYL + "_can_analyze", props=["C03"], types=dict(self=DRYRuleT, context=LintCtxT), returns=Bool)
+class CanAnalyze:
+    def value(self, context):
+        return context.file_path is not None and context.file_content is not None and self._file_analyzer is not None \
+            and self._storage is not None
+
+
+@contract(DRYL + "_active_storage", props=["C03"], types=dict(self=DRYRuleT), returns=StorageT, raises=["AssertionError"])
+class ActiveStorage:
+    def raises_when(self):
+        return self._storage is None
+
+    def value(self):
+        return self._storage
+
+
+@contract(DRYL + "_active_file_analyzer", props=["C03"], types=dict(self=DRYRuleT), returns=FileAnalyzerT,
+          raises=["AssertionError"])
+class ActiveFileAnalyzer:
+    def raises_when(self):
+        return self._file_analyzer is None
+
+    def value(self):
+        return self._file_analyzer
+
+
+def analyze_spec(file_path, content, language, config):
+    """FileAnalyzer.analyze as a function (its contract's value)."""
+    return ([block for hash_val, start_line, end_line, snippet in py_windows(content, config.min_duplicate_lines)
+             if (block := (block_of(file_path, (hash_val, start_line, end_line, snippet))
+                           if py_keeps(True, file_path, content, (hash_val, start_line, end_line, snippet)) else None))]
+            if language == "python" else
+            ([block_of(file_path, w) for w in
+              [(hash_val, start_line, end_line, snippet)
+               for hash_val, start_line, end_line, snippet in ts_windows(content, config.min_duplicate_lines)
+               if not hits_range(start_line, end_line, iface_ranges(content))
+               and not ts_single_statement(content, start_line, end_line)]
+              if not block_filtered(block_of(file_path, w), content)]
+             if language in ("typescript", "javascript") else []))
+
+
+@contract(DRYL + "_analyze_and_store", props=["C03"], types=dict(self=DRYRuleT, context=LintCtxT, config=DryConfigGenT, blocks=Blocks),
+          modifies=["self._storage", "self._file_analyzer"],  # (optional fields: the frame is stated per clause below)
+          raises=["AssertionError"])
+class AnalyzeAndStore:
+    """Property (completeness of recording): for a file that can be analysed, exactly the blocks the analyzer yields for
+    THIS file and language are inserted under THIS file's path; otherwise the store is untouched."""
+    def requires(config):
+        return config.min_duplicate_lines >= 1
+
+    def raises_when(self):
+        return False
+
+    def ensures_stores_the_blocks_of_this_file(self, context, config, old):
+        return implies(context.file_path is not None and context.file_content is not None
+                       and old.self._file_analyzer is not None and old.self._storage is not None,
+                       self._storage._cache.db == (
+                           db_insert(old.self._storage._cache.db, context.file_path,
+                                     analyze_spec(context.file_path, context.file_content, context.language, config))
+                           if len(analyze_spec(context.file_path, context.file_content, context.language, config)) > 0
+                           else old.self._storage._cache.db))
+
+    def ensures_store_untouched_when_not_analysable(self, context, old):
+        return (context.file_path is not None and context.file_content is not None
+                and old.self._file_analyzer is not None and old.self._storage is not None) or (
+            (self._storage is None) == (old.self._storage is None)
+            and (self._storage is None or self._storage._cache.db == old.self._storage._cache.db))
+
+
+# =================================================================== C03 depends on contracts owned by other properties
+# One contract per function, several properties: the functions below are on the path from the observation point (rule
+# check()/finalize()) to the DRY pipeline and are contracted by the files of other properties. C03 DEPENDS on them, so it
+# adds its id to their `props` (they then also run under ./check C03); a target that is missing is reported by the
+# custom check `dry-dependency-cone` instead of being silently skipped.
+from pyvc import api as _api  # noqa: E402
+
+C03_DEPENDS = [
+    ("src/core/linter_utils.py::should_process_file", "a file without path or content is not analysed"),
+    ("src/core/linter_utils.py::has_file_content", "part of should_process_file"),
+    ("src/core/linter_utils.py::has_file_path", "part of should_process_file"),
+    ("src/linters/dry/config.py::DRYConfig.__post_init__", "min_duplicate_lines / min_occurrences >= 1, storage mode valid"),
+    ("src/linters/dry/config.py::DRYConfig._validate_positive_fields", "part of __post_init__"),
+    ("src/linters/dry/linter.py::DRYRule._process_file", "per-file collection step: initialise storage, analyse and store"),
+    ("src/linters/dry/linter.py::DRYRule.finalize", "reports the collected evidence and leaves the rule clean for the next run"),
+    ("src/linters/dry/inline_ignore.py::InlineIgnoreParser.parse_file", "records the `# dry: ignore-*` ranges of a file"),
+    ("src/linters/dry/inline_ignore.py::InlineIgnoreParser.clear", "ignore ranges do not leak into the next run"),
+    ("src/linters/dry/inline_ignore.py::InlineIgnoreParser._parse_ignore_directive", "range of one directive"),
+    ("src/linters/dry/inline_ignore.py::InlineIgnoreParser._check_range_overlap", "range test of should_ignore"),
+    ("src/linters/dry/inline_ignore.py::InlineIgnoreParser._check_single_line", "line test of should_ignore"),
+]
+_DEP_IMPORT_ERRORS = {}
+for _m in ("contracts.c05_config", "contracts.c11_containment", "contracts.c04_checkers", "contracts.c04_dry_content",
+           "contracts.c08_state"):
+    try:
+        __import__(_m)
+    except BaseException as _e:  # noqa  (reported by the cone check below, never silently)
+        _DEP_IMPORT_ERRORS[_m] = repr(_e)[:200]
+for _t, _why in C03_DEPENDS:
+    _c = _api.REGISTRY.get(_t)
+    if _c is not None and "C03" not in _c.props:
+        _c.props.append("C03")
+
+
+@custom("dry-dependency-cone", props=["C03"])
+def dry_dependency_cone(ctx):
+    """Mechanical: every function C03 depends on through another property's file is still under a contract that
+    carries C03 (a vanished or renamed target => undecided, never a silent loss of coverage)."""
+    missing = [t for t, _ in C03_DEPENDS if t not in _api.REGISTRY or "C03" not in _api.REGISTRY[t].props]
+    ok = not missing
+    return [{"name": "custom:dry-dependency-cone/contracts-of-other-properties-carry-C03", "kind": "custom",
+             "verdict": "discharged" if ok else "unknown", "solver": "registry", "ms": 0.0, "carries": False, "lineno": 0,
+             "note": "" if ok else f"no contract carrying C03 for {missing} (import errors: {_DEP_IMPORT_ERRORS})"}]
